@@ -150,6 +150,7 @@ func (fx *Fx) stdlibCall(st *State, fn *types.Func, recvExpr ast.Expr, call *ast
 		e := fx.d.freshConst("parseint_err", SRef)
 		st.assume(app("=", app("=", e, "nil"), app("parseI_ok", s.X)))
 		st.assume(implies(app("parseI_ok", s.X), app("=", v, app("parseI_val", s.X))))
+		st.assume(implies(app("parseI_ok", s.X), app(">", app("slen", s.X), "0"))) // the empty string is a syntax error
 		st.assume(and(app("<=", minInt, v), app("<=", v, maxInt)))
 		return []Val{{T: types.Typ[types.Int64], S: SInt, X: v}, {T: sig.Results().At(1).Type(), S: SRef, X: e}}
 	case "errors.New", "fmt.Errorf":
@@ -194,7 +195,7 @@ func (fx *Fx) stdlibCall(st *State, fn *types.Func, recvExpr ast.Expr, call *ast
 	case "bufio.NewScanner":
 		r := fx.alloc(st, "scanner")
 		fx.scannerCell(st, r)
-		fx.scannerStore(st, r, "(mk_GScanner false nil str_empty false)")
+		fx.scannerStore(st, r, "(mk_GScanner false nil str_empty false 0)")
 		return []Val{{T: sig.Results().At(0).Type(), S: SRef, X: r}}
 	case "time.Now":
 		r := fx.d.freshConst("now", SInt)
@@ -238,7 +239,7 @@ func (fx *Fx) indexByte(st *State, s, c Val) Val {
 const scannerSort = "GScanner"
 
 func (fx *Fx) scannerCell(st *State, sc string) string {
-	fx.d.ensureSort(scannerSort, "(declare-datatypes ((GScanner 0)) (((mk_GScanner (sc_done Bool) (sc_err Ref) (sc_tok Str) (sc_started Bool)))))")
+	fx.d.ensureSort(scannerSort, "(declare-datatypes ((GScanner 0)) (((mk_GScanner (sc_done Bool) (sc_err Ref) (sc_tok Str) (sc_started Bool) (sc_max Int)))))")
 	h := fx.heapTerm(st, "ghost_scanner", scannerSort)
 	return app("select", h, sc)
 }
@@ -250,7 +251,7 @@ func (fx *Fx) scannerStore(st *State, sc, cell string) {
 
 func (fx *Fx) scannerMethod(st *State, name string, recv Val, args []Val, sig *types.Signature) ([]Val, bool) {
 	c := fx.scannerCell(st, recv.X)
-	done, err, tok, started := app("sc_done", c), app("sc_err", c), app("sc_tok", c), app("sc_started", c)
+	done, err, tok, started, max := app("sc_done", c), app("sc_err", c), app("sc_tok", c), app("sc_started", c), app("sc_max", c)
 	fx.assumed["bufio.Scanner contract: Scan returns false exactly when the input is exhausted or an error is set, Err() then returns that error (io.EOF as nil); tokens come from the split function"] = true
 	switch name {
 	case "(*bufio.Scanner).Scan":
@@ -259,7 +260,7 @@ func (fx *Fx) scannerMethod(st *State, name string, recv Val, args []Val, sig *t
 		ntok := fx.d.freshConst("token", SStr)
 		nerr := fx.d.freshConst("scanerr", SRef)
 		fx.older(st, nerr)
-		fx.scannerStore(st, recv.X, app("mk_GScanner", or(done, not(b)), ite(or(done, b), err, nerr), ite(b, ntok, tok), "true"))
+		fx.scannerStore(st, recv.X, app("mk_GScanner", or(done, not(b)), ite(or(done, b), err, nerr), ite(b, ntok, tok), "true", max))
 		if st.ghost["scan_count"].X == "" {
 			st.ghost["scan_count"] = Val{S: SInt, X: "0"}
 		}
@@ -274,6 +275,7 @@ func (fx *Fx) scannerMethod(st *State, name string, recv Val, args []Val, sig *t
 		if fx.inSpec == 0 {
 			fx.oblige(st, "panic", "Scanner.Buffer after Scan", not(started), "bufio.Scanner.Buffer panics once scanning has started")
 		}
+		fx.scannerStore(st, recv.X, app("mk_GScanner", done, err, tok, started, args[1].X))
 		return nil, true
 	case "(*bufio.Scanner).Split":
 		return nil, true
